@@ -173,16 +173,29 @@ func (c *Cache) Watch(
 		// Create/Get Informer
 		informer, _, err := c.informerMap.Get(ctx, gvk, uns)
 		if err != nil {
+			c.forgetFailedInformer(ctx, gvk)
 			return fmt.Errorf("getting informer from InformerMap: %w", err)
 		}
 
 		// ensure to add all event handlers to the new informer
 		if err := c.cacheSource.handleNewInformer(informer); err != nil {
+			c.forgetFailedInformer(ctx, gvk)
 			return fmt.Errorf("registering EventHandlers for %v: %w", gvk, err)
 		}
 	}
 
 	return nil
+}
+
+// forgetFailedInformer drops the watch registration of a GVK whose informer could not be started
+// or wired up. Without this the next Watch call would assume a working informer exists and skip
+// event handler registration, so a later Get/List would start an informer that delivers no events.
+// Must be called with informerReferencesMux held.
+func (c *Cache) forgetFailedInformer(ctx context.Context, gvk schema.GroupVersionKind) {
+	delete(c.informerReferences, gvk)
+	if err := c.informerMap.Delete(ctx, gvk); err != nil {
+		logr.FromContextOrDiscard(ctx).Error(err, "releasing informer after failed watch", "gvk", gvk.String())
+	}
 }
 
 // Free all watches associated with the given owner.
